@@ -264,6 +264,12 @@ pub fn latin1(n: &[u8]) -> String {
 }
 
 pub fn display_name(n: &[u8; 11]) -> String {
+    // a stored first byte 0x05 stands for 0xE5 (which would otherwise read as "deleted")
+    let mut n = *n;
+    if n[0] == 0x05 {
+        n[0] = 0xE5;
+    }
+    let n = &n;
     let base = latin1(&n[..8]);
     let base = base.trim_end_matches(' ');
     let ext = latin1(&n[8..]);
